@@ -612,6 +612,8 @@ func runC08FlushVsUpgrade(r *rep.Report) (key, msg string, held bool) {
 func TestC08(t *testing.T) {
 	r := rep.New(t, "C08")
 	defer r.Flush()
+	// journalled cases that have not ended after a minute of real time are examined (rep.Guard)
+	r.Guard(60 * time.Second)
 	r.Rule("all candidate scripts over {probe ping, other ping, pong, message, upgrade, noop, garbage, disconnect} up to length 3 (585; length 4 = 4681 in thorough) x candidate {WebSocket, in-memory WebTransport} x timing {plain, during a burst of sends, across heartbeats}, each compared with a reference upgrade state machine: switch iff an upgrade packet arrives on a live candidate, at most once; otherwise candidate closed, session open on polling, not upgrading, usable both ways, and a later conformant upgrade completes; messages on a candidate before the switch never delivered; traffic both ways after a switch; gate lanes: two candidates past the server's gate test, probe on the wire before the session attached its listeners; switch lane: a second candidate connects from inside the switch to the first (listener on the old transport's close event / on the upgrade event) and must be closed, one upgrade event, first candidate usable; retry lane: a second candidate entertained across the instant of the failed first candidate's upgrade timer while a third must be refused; real WebTransport over loopback QUIC (fresh session, upgrade, second/late/unknown-sid candidates); after every script no server goroutine may survive 45 s past the end; distinct = (script, candidate, timing)")
 	r.Assume("the upgrade probe normally reaches the server after MaybeUpgrade has attached its listeners (1 ms of virtual latency); the opposite order is the dedicated lane 'probe-before-listeners'")
 	var scripts [][]string
